@@ -37,7 +37,7 @@ func genC16(seed uint64, run int, tier string) *Plan {
 		p.Cfg.Store = "file"
 	}
 	p.Cfg.SharedSess = r.IntN(4) == 0
-	p.Cfg.Fine = fineKnob(seed, 15, 3)
+	p.Cfg.Fine = fineTier(tier, seed, 15, 3)
 	p.Cfg.CloseAtEnd = r.IntN(2) == 0
 	ntasks := 2 + r.IntN(3)
 	closer := -1
@@ -73,7 +73,7 @@ func genC16(seed uint64, run int, tier string) *Plan {
 	}
 	for ti := 0; ti < ntasks; ti++ {
 		tp := TaskPlan{Name: fmt.Sprintf("actor%d", ti), Role: "actor"}
-		nops := 1 + r.IntN(6)
+		nops := deepen(tier, seed, 1+r.IntN(6))
 		closeAt := -1
 		if ti == closer {
 			closeAt = r.IntN(nops + 1)
